@@ -30,7 +30,7 @@ def plain_cases(draw):
 def cases(draw):
     if draw(st.integers(0, 9)) < 3:
         return draw(plain_cases())
-    w = draw(GW.worlds(ninst=4))
+    w = draw(GW.worlds(ninst=4, split_paths=draw(st.booleans())))
     # force some documents behind the handler so that the down -> up transition exists
     handler_docs = [u for u, v in w["via"].items() if v == "handler"]
     w["down"] = draw(st.lists(st.sampled_from(handler_docs), unique=True)) if handler_docs else []
@@ -46,7 +46,7 @@ def cases(draw):
         elif op in ("take_close", "take_drop"):
             steps.append([op, draw(st.integers(0, 3)), draw(st.integers(0, 2))])
         else:
-            steps.append([op, draw(st.integers(0, 3))])
+            steps.append([op, draw(st.integers(0, 6))])
     w["steps"] = steps
     w["kind"] = "history"
     return w
@@ -130,7 +130,7 @@ class C07(Prop):
                    "re-entering a validator while one of its own iterators is suspended is not claimed (DESIGN.md C07)",
                    "documents go down -> up only, never back"]
     GATES = {"op:take_drop": 200, "op:take_close": 200, "outcome:RefResolutionError": 100, "op:up": 50,
-             "world:nested-id": 30, "world:ref:relative": 100}
+             "world:nested-id": 30, "world:ref:relative": 100, "world:split-paths": 100}
     MIN_NONTRIVIAL = 200
 
     def strategy(self, tier):
@@ -214,7 +214,7 @@ class C07(Prop):
         instances = copy.deepcopy(case["instances"])
         snap_inst = impl.cj(instances)
         snap_schema = impl.cj(v.schema)
-        snap_store = dict((u, impl.cj(v.resolver.store[u])) for u in case["docs"] if case["via"][u] == "store")
+        snap_store = dict((u, impl.cj(v.resolver.store[u])) for u in case["docs"] if case["via"][u] in ("store", "store#"))
         scope0, depth0 = v.resolver.resolution_scope, len(v.resolver._scopes_stack)
         interesting = False
         for n, step in enumerate(steps):
